@@ -983,6 +983,37 @@ def cfgs(tier_thorough):
     return out
 
 
+class IndexSet:
+    """a node set given as an index array of symbolic length whose entries are arbitrary node ids (repeated entries and any order
+    allowed)"""
+
+    def __init__(self, entries, length):
+        self.entries, self.length = entries, length
+
+
+def int_from_bits(bits):
+    """integer with the given binary digits (free Booleans) -> one-hot"""
+    if all(num(b) for b in bits):
+        return sum((1 << k) for k, b in enumerate(bits) if b)
+    return _oh([(val, b_and(*[(b if (val >> k) & 1 else b_not(b)) for k, b in enumerate(bits)])) for val in range(2 ** len(bits))])
+
+
+def draw_index_sets(ex, cfg, L):
+    """every node set is an index array of length 0..L (symbolic) with entries in 0..nN-1 (symbolic, repeats and any order)"""
+    nb_len, nb_ent = max(1, int(L).bit_length()), max(1, int(cfg.nN - 1).bit_length())
+    out = {}
+    for s in cfg.sets:
+        ln = int_from_bits([px.unwrap(ex.bool('len_%s_bit%d' % (s, k))) for k in range(nb_len)])
+        ex.assume(i_le(ln, L))
+        ents = []
+        for p in range(L):
+            v = int_from_bits([px.unwrap(ex.bool('idx_%s_%d_bit%d' % (s, p, k))) for k in range(nb_ent)])
+            ex.assume(i_lt(v, cfg.nN))
+            ents.append(v)
+        out[s] = IndexSet(ents, ln)
+    return out
+
+
 class Oracle:
     """what the BC list means, written independently of DofManager from the membership flags: dof d = node*dim + component is
     constrained iff some essential BC names (a set containing the node, the component)"""
@@ -992,10 +1023,17 @@ class Oracle:
         self.bc = []
         for n in range(cfg.nN):
             for c in range(cfg.dim):
-                self.bc.append(b_or(*[member[s][n] for s, cc in cfg.bcs if cc == c]))
+                self.bc.append(b_or(*[self._has(member[s], n) for s, cc in cfg.bcs if cc == c]))
         self.free = [b_not(x) for x in self.bc]
         self.rank_free, self.nfree = prefix_counts(self.free)
         self.rank_bc, self.nbc = prefix_counts(self.bc)
+
+    @staticmethod
+    def _has(ns, n):
+        """node n belongs to node set ns: membership flags, or IndexSet (entries idx[p], p < length)"""
+        if isinstance(ns, IndexSet):
+            return b_or(*[b_and(i_lt(p, ns.length), i_eq(ns.entries[p], n)) for p in range(len(ns.entries))])
+        return ns[n]
 
     def eldof(self, e, i):
         cfg = self.cfg
@@ -1023,14 +1061,22 @@ def build_dof_manager(cfg, member, symbolic, mod=None):
         from optimism import Mesh
         mod = mod or load_function_space_module()
         ar = ONP().arange(cfg.nN)
-        nodeSets = {s: ar[dense_pa(member[s], 'b')] for s in cfg.sets}            # index array of symbolic length
+        nodeSets = {}
+        for s in cfg.sets:
+            if isinstance(member[s], IndexSet):
+                d = onp.empty((len(member[s].entries),), dtype=object)
+                d[:] = member[s].entries
+                nodeSets[s] = PA(d, 'i', (member[s].length,), cfg.nN - 1)
+            else:
+                nodeSets[s] = ar[dense_pa(member[s], 'b')]            # index array of symbolic length
         mesh = Mesh.Mesh(onp.asarray(cfg.coords), onp.asarray(cfg.conns), None, None, None, None, nodeSets, None)
         fs = types.SimpleNamespace(mesh=mesh)
         FS = mod
     else:
         import jax.numpy as jnp
         from optimism import FunctionSpace as FS
-        nodeSets = {s: jnp.array([j for j in range(cfg.nN) if member[s][j]], dtype=int) for s in cfg.sets}
+        nodeSets = {s: (jnp.array([int(v) for v in member[s].entries[:int(member[s].length)]], dtype=int) if isinstance(member[s], IndexSet)
+                        else jnp.array([j for j in range(cfg.nN) if member[s][j]], dtype=int)) for s in cfg.sets}
         fs = real_function_space(cfg, nodeSets)
     ebcs = [FS.EssentialBC(nodeSet=s, component=c) for s, c in cfg.bcs]
     return FS.DofManager(fs, cfg.dim, ebcs), fs
@@ -1206,9 +1252,9 @@ PARTS = {
 }
 
 
-def make_harness(cfg, parts, mod_cache=None):
+def make_harness(cfg, parts, mod_cache=None, index_sets=None):
     def fn(ex):
-        member = draw_member(ex, cfg)
+        member = draw_member(ex, cfg) if index_sets is None else draw_index_sets(ex, cfg, index_sets)
         orc = Oracle(cfg, member)
         dm, _ = build_dof_manager(cfg, member, ex.symbolic, mod=None if mod_cache is None else mod_cache.get('mod'))
 
@@ -1340,12 +1386,13 @@ def _meta(h, cs, what):
                   'functionSpace is represented by its mesh (DofManager reads functionSpace.mesh.coords.shape, .nodeSets, .conns only); node sets are '
                   'index arrays arange(nNodes)[membership flags] of symbolic length')
     h.outside('meshes beyond the bound; element orders > 1 (the code is order-agnostic, not proved); node sets with repeated or unordered entries '
-              'inside one set (covered only through overlapping / re-used / repeated sets); dofIndexSlice arguments other than (all nodes, component)')
+              'inside one set in O3-O5 (O1/O2 cover them: every other attribute is a function of isBc); dofIndexSlice arguments other than (all nodes, component)')
 
 
-def _run(h, cfg, parts, cap, order=('core',)):
+def _run(h, cfg, parts, cap, order=('core',), index_sets=None):
     goals = {'partition': GOALS_PARTITION, 'sizes': GOALS_SIZES, 'roundtrip': GOALS_ROUNDTRIP, 'slice': GOALS_SLICE, 'coo': GOALS_COO}
-    px.run_px(h, cfg.name, make_harness(cfg, parts), cap=cap, order=order, expect_goals=[g for p in parts for g in goals[p]])
+    px.run_px(h, cfg.name + ('' if index_sets is None else '/index_sets'), make_harness(cfg, parts, index_sets=index_sets), cap=cap, order=order,
+              expect_goals=[g for p in parts for g in goals[p]])
 
 
 GOALS_PARTITION = ['isBc_is_the_union_of_the_essential_bc_sets', 'unknown_indices_increasing', 'bc_indices_increasing', 'indices_are_dof_ids',
@@ -1389,6 +1436,10 @@ def o1(h):
     _meta(h, cs, 'O1: every assignment of the membership flags of every node set')
     for c in cs:
         _run(h, c, ['partition'], cap=60)
+    # node sets as index arrays with repeated / unordered entries and symbolic length (0..5 entries each, 4 nodes)
+    c = Cfg('tri2_f2', *TRI2, 2, extra=False)
+    h.bounds('O1/O2 index-set variant (%s): every node set is an index array of symbolic length 0..5 whose entries are arbitrary node ids (repeats, any order)' % c.name)
+    _run(h, c, ['partition'], cap=60, index_sets=5)
 
 
 @obligation(P, 'O2.sizes_are_popcounts', cap=300)
@@ -1399,6 +1450,9 @@ def o2(h):
     _meta(h, cs, 'O2: every assignment of the membership flags')
     for c in cs:
         _run(h, c, ['sizes'], cap=60)
+    c = Cfg('tri2_f2', *TRI2, 2, extra=False)
+    h.bounds('O1/O2 index-set variant (%s): every node set is an index array of symbolic length 0..5 whose entries are arbitrary node ids (repeats, any order)' % c.name)
+    _run(h, c, ['sizes'], cap=60, index_sets=5)
 
 
 @obligation(P, 'O3.split_recombine_round_trip', cap=300)
